@@ -117,13 +117,6 @@ func OpenStore(ctx context.Context, primaryType string, dataPath, indexPath stri
 		return nil, err
 	}
 
-	// Start primary GC only after index is started so that primary GC does not
-	// interfere with any index remapping.
-	mp, ok := primary.(*mhprimary.MultihashPrimary)
-	if ok && mp != nil {
-		mp.StartGC(freeList, c.gcInterval, c.gcTimeLimit, idx.UpdateIfAt)
-	}
-
 	store := &Store{
 		lastFlush:    time.Now(),
 		index:        idx,
@@ -139,7 +132,26 @@ func OpenStore(ctx context.Context, primaryType string, dataPath, indexPath stri
 		immutable:    immutable,
 		syncOnFlush:  c.syncOnFlush,
 	}
+
+	// Start primary GC only after index is started so that primary GC does not
+	// interfere with any index remapping.
+	mp, ok := primary.(*mhprimary.MultihashPrimary)
+	if ok && mp != nil {
+		mp.StartGC(freeList, c.gcInterval, c.gcTimeLimit, store.updateIndexForGC)
+	}
+
 	return store, nil
+}
+
+// updateIndexForGC re-points a key to the new location of its primary record
+// after GC has moved the record. It holds the key's lock, so that it cannot
+// run between the primary write and the index write of a Put of that key.
+// At that point the new record is not indexed yet, and GC would take it for
+// an unreferenced record and put it on the freelist.
+func (s *Store) updateIndexForGC(indexKey []byte, prevOffset types.Position, location types.Block) error {
+	unlockKey := s.lockKey(indexKey)
+	defer unlockKey()
+	return s.index.UpdateIfAt(indexKey, prevOffset, location)
 }
 
 // checkInterruptedTranslation returns an error if a previous change of the
